@@ -6,7 +6,7 @@ const ghostPreludeMarker = "// ---- ghost prelude ----"
 var ghostBuiltinNames = []string{
 	"seq", "seqOf", "bytesOf", "cat", "cat3", "cat4", "b1", "u16be", "sub", "slen", "sat", "mkseq", "seqEq", "seq0",
 	"sameSlice", "forallKey", "maxAlloc", "ssnap", "sliceSnap", "ssLen", "ssAt", "msnap", "mapSnap", "guardSnap", "guardVal", "guardSlice", "snapHas", "snapGet", "mapHas", "forall", "forallPairs", "forallGrid", "exists", "fresh", "arrayOf", "sameArray", "ite",
-	"evCount", "evIndex", "evArg", "evSlice", "evBytes", "evRet", "evTotal",
+	"evCount", "evHeld", "evIndex", "evArg", "evSlice", "evBytes", "evRet", "evTotal",
 	"holds", "holdsR", "closed", "ownsChan", "onceDone", "sameMap", "isNilFunc", "closureIs", "closureVar", "sameFunc", "dynType", "typeIs",
 	"strBytesEq", "runeOK", "validUTF8", "utf8norm", "utf8normOf", "ovfFree", "unchanged", "fnCode", "readyAt",
 	"chainHas", "errChain", "retryOf", "isRetryErr", "ghostTrue", "splitOf", "joinedLen", "hasByte",
@@ -128,6 +128,9 @@ func arrayOf(b []byte) int { return 0 }
 func evCount(name string) int               { return 0 }
 func evTotal() int                          { return 0 }
 func evIndex(name string, k int) int        { return 0 }
+
+// evHeld(name, k, &x.mu): the k-th event of that name happened while the mutex was held (write mode).
+func evHeld[M any](name string, k int, mu *M) bool { return true }
 func evBytes(name string, k, arg int) seq   { return seq0() }
 func evArg[T any](name string, k, arg int) T { var z T; return z }
 
